@@ -67,8 +67,8 @@ enum Op6 {
     SetStrategy(usize),
     /// the same `update(fact, data)` 1001 times in a row (a sensor that keeps re-sending its reading): one state for the
     /// statement, more than a thousand queued activations for the engine -- more than one `fire_all` pops (its loop
-    /// guard is 1000), so the two calls that follow are left to drain the queue: they must fire nothing unsound, and
-    /// owe nothing yet; from the third on everything is owed again
+    /// guard is 1000), so the calls that follow are left to drain the queue (as many as the queued activations need at
+    /// 1000 per call): they must fire nothing unsound, and owe nothing yet; after that everything is owed again
     Burst(usize, Data),
 }
 
@@ -579,8 +579,11 @@ pub fn run(s: &mut Src, ctx: &mut Ctx) -> Verdict {
     let mut clock: u64 = 1;
     let mut last_fire_all: u64 = 0;
     let (mut nt_stale, mut nt_action_modifies, mut nt_compete) = (false, false, false);
-    // fire_all calls that are still draining the queue a burst left (see Op6::Burst): nothing is owed in them
-    let mut drain_calls = 0u32;
+    // Upper bound on the activations that may be queued: every insert / update adds at most one per rule, a fire_all
+    // that does not run into its loop guard (1000 pops) empties the queue. While the bound exceeds 1000 a fire_all may
+    // stop at the guard with valid activations still queued: such a call is a DRAINING call (see Op6::Burst) -- soundness
+    // is judged, nothing is owed -- and takes at least 1000 off the queue.
+    let mut backlog: usize = if ctx.exh == 0 && c.ops.len() % 3 == 0 { 70 * c.rules.len() } else { 0 };
     let mut pending_dirty: BTreeSet<usize> = BTreeSet::new(); // facts updated/retracted since last fire_all that matched some rule before
     for (oi, op) in c.ops.iter().enumerate() {
         clock += 1;
@@ -591,12 +594,14 @@ pub fn run(s: &mut Src, ctx: &mut Ctx) -> Verdict {
                     return Verdict::fail("handle-reused-or-not-increasing", format!("op {}: insert returned id {} after {}", oi, h.id(), last_id));
                 }
                 last_id = h.id();
+                backlog += c.rules.len();
                 facts.push(MFact { handle: h, ty: *ty, live: true, data: d.clone(), data_known: true, written_at: clock });
             }
             Op6::Update(i, d) => {
                 if let Some(f) = facts.get_mut(*i) {
                     let matched_before = !f.data_known || c.rules.iter().any(|r| r.ty == f.ty && !both_readings(r, &data_map(&f.data)).0);
                     let r = engine.update(f.handle, data_to_typed(d));
+                    backlog += c.rules.len();
                     if f.live {
                         if r.is_err() {
                             return Verdict::fail("update-live-rejected", format!("op {}: update of a live handle returned Err", oi));
@@ -627,7 +632,7 @@ pub fn run(s: &mut Src, ctx: &mut Ctx) -> Verdict {
                         if matched_before {
                             pending_dirty.insert(*i);
                         }
-                        drain_calls = 2;
+                        backlog += 1001 * c.rules.len();
                         ctx.label("burst-of-1001-updates");
                     }
                 }
@@ -657,6 +662,7 @@ pub fn run(s: &mut Src, ctx: &mut Ctx) -> Verdict {
                 }
             }
             Op6::FireAll => {
+                let draining = backlog > 1000;
                 rec.lock().unwrap().clear();
                 let live_before: BTreeSet<u64> = facts.iter().filter(|f| f.live).map(|f| f.handle.id()).collect();
                 let fired = engine.fire_all();
@@ -774,7 +780,7 @@ pub fn run(s: &mut Src, ctx: &mut Ctx) -> Verdict {
                     if !undefined {
                         let mut got = fired.clone();
                         got.sort();
-                        if drain_calls > 0 {
+                        if draining {
                             // owed firings that do not happen now are not owed later either (their facts are no longer
                             // "written since the previous fire_all"): they move to `may`
                             may.append(&mut must);
@@ -812,7 +818,7 @@ pub fn run(s: &mut Src, ctx: &mut Ctx) -> Verdict {
                 }
                 last_fire_all = clock;
                 first_fire_done = true;
-                drain_calls = drain_calls.saturating_sub(1);
+                backlog = if draining { backlog - 1000 } else { 0 };
                 {
                     let live_n = facts.iter().filter(|f| f.live).count();
                     for f in &recs {
